@@ -10,8 +10,10 @@
 #   ("settle",)       a long idle period (macro step): lets the detector's private inter-packet timer saturate
 # Up to two packets in sequence.  The product of two full alphabets is far too large (and pointless), so a configuration
 # has mode "full" (one packet, every byte sequence; used to sweep many device addresses), "full-rep" (packet 1 = every
-# byte sequence, packet 2 = a representative set of packets) or "rep-full" (packet 1 from the representative set, so that
-# every kind of left-over state is produced; packet 2 = every byte sequence).
+# byte sequence, packet 2 = a representative set of packets), "rep-full" (packet 1 from the representative set, so that
+# every kind of left-over state is produced; packet 2 = every byte sequence) or "long-rep" (packet 1 = an over-long packet
+# of 4..8 bytes: any kind of packet start + filler bytes + a tail that is itself a well-formed token / SOF, see
+# long_packets(); packet 2 from the representative set).
 # The detector's private inter-packet timer is a free-running saturating counter: while it runs every cycle is a new
 # DUT state, so gaps inside a packet are unlimited only when the timer is saturated (they are self-loops then) and are
 # otherwise bounded by the per-packet gap budget cfg["gaps"].
@@ -107,6 +109,21 @@ def rep_packets(addr, other):
     ]
 
 
+def long_packets(addr, other, rich=False):
+    """over-long packets of 4..8 bytes: head (any kind of 1..3-byte packet start) + 0..2 filler bytes + a tail that would be a
+    well-formed token / SOF if it stood alone (every prefix can be ended, gaps anywhere) -- none of them may be reported"""
+    t = U.token(U.IN, addr, 3)
+    heads = [t, U.token(U.OUT, other, 1), U.sof(0x123), (t[0], t[1], t[2] ^ 0x08), (t[0] ^ 0x10, t[1], t[2]), (U.pid_byte(U.DATA0),),
+             U.handshake(U.ACK), t[:2]]
+    tails = [U.token(U.IN, addr, 5), U.sof(0x2A5), U.token(U.SETUP, addr, 0)]
+    fillers = [(), (0x00,), (0x00, 0x00)]
+    if rich:
+        heads += [U.token(U.PING, addr, 0xF), U.token(U.SETUP, addr, 0), t[:1], (0x00,)]
+        tails += [U.token(U.PING, addr, 2), U.token(U.OUT, addr, 0xF), U.token(U.IN, other, 5)]
+        fillers += [(U.pid_byte(U.IN),), (0xFF, 0x00, 0x10)]
+    return [h + f + tl for h in heads for f in fillers for tl in tails]
+
+
 def configs(tier):
     # addrs: device addresses tried;  gaps: per-packet gap budget while the timer runs;  starts: idle cycles after packet 1
     # at which packet 2 may start (besides "after a long idle period");  rep: size of the representative set;  addr2:
@@ -118,6 +135,8 @@ def configs(tier):
         cs.append(dict(filter=True, clock=12, fs_only=True, mode="full", addrs=[1, 0x55], gaps=1))
         cs.append(dict(filter=True, clock=60, fs_only=False, mode="full-rep", addrs=[0x2A], gaps=1, starts=[0], rep=5, addr2="same"))
         cs.append(dict(filter=False, clock=60, fs_only=False, mode="full-rep", addrs=[0], gaps=0, starts=[0], rep=4))
+        cs.append(dict(filter=True, clock=60, fs_only=False, mode="long-rep", addrs=[0x2A, 0], gaps=2, starts=[0, 2], rep=8, rich=1))
+        cs.append(dict(filter=False, clock=12, fs_only=True, mode="long-rep", addrs=[0x15], gaps=2, starts=[0, 2], rep=8, rich=1))
         cs.append(dict(filter=True, clock=60, fs_only=False, mode="rep-full", addrs=[0x2A], gaps=0, starts=[0], rep=6, addr2="same", third="reduced"))
         cs.append(dict(filter=False, clock=12, fs_only=True, mode="rep-full", addrs=[0], gaps=0, starts=[0], rep=6, third="reduced"))
     else:
@@ -131,6 +150,9 @@ def configs(tier):
             cs.append(dict(filter=True, clock=60, fs_only=False, mode="rep-full", addrs=[a], gaps=0, starts=[0], rep=8, addr2="same"))
         cs.append(dict(filter=True, clock=12, fs_only=True, mode="rep-full", addrs=[1], gaps=0, starts=[0], rep=12, addr2="same"))
         cs.append(dict(filter=False, clock=60, fs_only=False, mode="rep-full", addrs=[0x15], gaps=0, starts=[0], rep=8))
+        cs.append(dict(filter=True, clock=60, fs_only=False, mode="long-rep", addrs=[0x2A, 0], gaps=2, starts=[0, 2], rep=8, rich=1))
+        cs.append(dict(filter=True, clock=12, fs_only=True, mode="long-rep", addrs=[0x7F], gaps=2, starts=[0, 1], rep=8, rich=1))
+        cs.append(dict(filter=False, clock=60, fs_only=False, mode="long-rep", addrs=[0x15], gaps=2, starts=[0, 2], rep=8, rich=1))
     return cs
 
 
@@ -157,10 +179,19 @@ class TokenSpec(Spec):
         self.bytes_all = [("byte", b) for b in range(256)]
         self.third = cfg.get("third", "all")
         self._third_cache = {}
-        self._rep_next = {}
-        for p in self.rep:
-            for i in range(len(p)):
-                self._rep_next.setdefault(p[:i], set()).add(p[i])
+        def tree(pkts):
+            t = {}
+            for p in pkts:
+                for i in range(len(p)):
+                    t.setdefault(p[:i], set()).add(p[i])
+            return {k: [("byte", b) for b in sorted(v)] for k, v in t.items()}
+        # packet index -> prefix tree of the packet set that packet is drawn from (absent: full byte alphabet)
+        self._trees = {}
+        if self.mode == "full-rep": self._trees[2] = tree(self.rep)
+        if self.mode == "rep-full": self._trees[1] = tree(self.rep)
+        if self.mode == "long-rep":
+            self._trees[1] = tree(long_packets(a0, a0 ^ 0x40, bool(cfg.get("rich"))))
+            self._trees[2] = tree(self.rep)
 
     # ------------------------------------------------------------------ DUT
     def build(self):
@@ -203,7 +234,7 @@ class TokenSpec(Spec):
         return self.env0()
 
     def _is_rep_pkt(self, npk):
-        return (self.mode == "full-rep" and npk == 2) or (self.mode == "rep-full" and npk == 1)
+        return npk in self._trees
 
     def _third_bytes(self, b1):
         if self.third == "all": return self.bytes_all
@@ -232,7 +263,7 @@ class TokenSpec(Spec):
         acts = [("end",)]
         if gb != 0: acts += [("wait", g) for g in GARBAGE]
         if hist is not None:
-            return acts + [("byte", b) for b in sorted(self._rep_next.get(hist, ()))]
+            return acts + self._trees[npk].get(hist, [])
         k = ps[0]
         if k in ("n", "p"): return acts + self.bytes_all
         if k == "q": return acts + self._third_bytes(ps[2])
@@ -247,6 +278,8 @@ class TokenSpec(Spec):
         g = ["token-reported", "sof-reported", "ignored:bad-crc5", "ignored:bad-check-nibble", "ignored:truncated", "ignored:overlong",
              "ignored:non-token", "ignored:empty", "gap-inside-token"]
         if self.filter: g.append("ignored:foreign-address")
+        if self.mode == "long-rep":
+            g = [x for x in g if x not in ("ignored:empty",)] + ["ignored:overlong-with-embedded-token"]
         if self.npk_max == 2: g += ["second-packet-token-reported", "back-to-back-packets", "second-packet-after-rejected-first"]
         return g
 
@@ -323,7 +356,9 @@ class TokenSpec(Spec):
                 else: self.cover["ignored:foreign-address"] += 1
             elif ps[0] == "n": self.cover["ignored:empty"] += 1
             elif ps[0] in ("p", "q"): self.cover["ignored:truncated"] += 1
-            else: self.cover["ignored:" + ps[1]] += 1
+            else:
+                self.cover["ignored:" + ps[1]] += 1
+                if hist is not None and len(hist) >= 6 and ref_whole(hist[-3:]) is not None: self.cover["ignored:overlong-with-embedded-token"] += 1
             pend, frame = self._cycle(cur, pend, frame, addr)          # the end cycle is cycle 0 of the report window
             return (npk, "idle", ("n", npk == 1 and ps[0] != "t"), None, addr, 0, pend, frame, 0)
         if op == "idle":
